@@ -991,9 +991,14 @@ def name_kind(v: str) -> str:
     """independent reading of a variable name: node / auxiliary (exactly what str() prints for an int ≥ 0) / user"""
     for rx, k in _RESERVED:
         mm = rx.match(v)
-        if mm and v.isascii():
+        if mm and v.isascii() and v == v.strip() and "\n" not in v:
             return k + str(int(mm.group(1)))
     return "u"
+
+
+def cp(sname: str) -> str:
+    """wire form of a name: its code points (names may be empty or contain white space)"""
+    return ".".join(str(ord(ch)) for ch in sname)
 
 
 def gen_names(rng):
@@ -1009,7 +1014,9 @@ def gen_names(rng):
             name = rng.choice([0.0, 1.0, 2.5, -0.5, 1e16, 1e-5, 3.0])
         elif r < 0.70:
             name = rng.choice(["x", "y", "x0", "b_3", "7", "07", "007", "0", "00", "1_0", "robdd_7", "aux_2", "robdd_07", "_7",
-                               "obdd_7", "ux_3", "7 ".strip(), "+7", "٧", "x,y", "-x", "north", "3.0", ""])
+                               "obdd_7", "ux_3", "+7", "٧", "x,y", "-x", "north", "3.0", "",
+                               # white space is part of a name: ' x', 'x ' and 'x' are three variables, 'robdd_7 ' is no node
+                               " x", "x ", "a b", " ", "7 ", " 7", "\t7", "7\n", "x\u00a0", "  x  "])
         else:
             name = rng.choice(["", "robdd_", "aux_"]) + str(rng.randint(0, 30))
         calls.append([pre, name, rng.random() < 0.5])
@@ -1034,11 +1041,11 @@ def run_names(ctx: Ctx, case, reqs, todo) -> None:
             ctx.spec_fail("newvar_registers", inp, {"pre": pre, "name": repr(name)}, size=len(case["calls"]))
         if pre == "def_" and name_kind(lit.v) != "u":
             ctx.spec_fail("newvar_default_prefix_user", inp, {"name": repr(name), "vname": lit.v}, size=len(case["calls"]))
-        out.append(f"{lit.v}:{int(lit.s)}:{name_kind(lit.v)}")
-        wire.append(f"p:{pre} n:{name}")
+        out.append(f"{cp(lit.v)}:{int(lit.s)}:{name_kind(lit.v)}")
+        wire.append(f"p:{cp(pre)} n:{cp(str(name))}")
     if len(set(m.vtable[1:])) != len(m.vtable) - 1 or m.tcount != len(m.vtable):
         ctx.spec_fail("newvar_registers_once", inp, {"vtable": m.vtable}, size=len(case["calls"]))
-    impl = " ".join(out) + f" | {len(m.vtable) - 1}" + "".join(" " + v for v in m.vtable[1:])
+    impl = " ".join(out) + f" | {len(m.vtable) - 1}" + "".join(" v" + cp(v) for v in m.vtable[1:])
     reqs.append(f"P names {len(wire)} " + " ".join(wire))
     todo.append(("names", inp, impl, len(case["calls"])))
     ctx.case("names", reqs[-1], nontrivial=len(case["calls"]) >= 2)
